@@ -98,7 +98,7 @@ def run_case(i, seed, tier):
     if i % 6 == 3:
         # edits continued on an object that opened the image mastered so far
         h.extend(n_ // 2)
-        counters['reopened_histories'] = 1 if h.reopen() else 0
+        counters['reopened_histories'] = 1 if h.reopen(reuse=(i % 2 == 1)) else 0
         h.extend(n_ - n_ // 2)
     else:
         h.extend(n_)
